@@ -113,7 +113,7 @@ Print Assumptions C02_parse_unparse.
 
 (* the same for parse_expr (Parser.parse_expression + end-of-stream check) at a given fuel *)
 Definition parse_expr_at (m : nat) (ts : list tok) : pres expr :=
-  match p_cond (kit_of m) ts with ROk e [] => ROk e [] | ROk _ _ => RErr | x => x end.
+  match p_cond (kit_of m) ts with ROk e [] => ROk e [] | ROk _ rest => RErr rest | x => x end.
 Theorem C02_parse_expr_default_fuel : forall ts, parse_expr ts = parse_expr_at (40 * (length ts + 2)) ts.
 Proof. reflexivity. Qed.
 Theorem C02_parse_unparse_expr : forall (e : expr), wf e = true ->
@@ -136,7 +136,7 @@ Example C02_parse_examples :
   parse_expr [v 97%N; KOp OLt; v 98%N; KOp OLe; v 99%N] = ROk (ECompare a [(CLt, b); (CLe, c)]) [] /\
   parse_expr [v 97%N; KOp OAdd; v 98%N; KOp OTilde; v 99%N; KOp OMul; v 97%N]
     = ROk (EBin Add a (EConcat [b; EBin Mul c a])) [] /\
-  parse_expr [v 97%N; KOp OAdd] = RErr /\
+  parse_expr [v 97%N; KOp OAdd] = RErr [] /\
   unparse (EBin Pow (EBin Pow a b) (EUn Neg c)) = [v 97%N; KOp OPow; v 98%N; KOp OPow; KOp OSub; v 99%N] /\
   unparse (EBin Pow a (EBin Pow b c)) = [v 97%N; KOp OPow; KOp OLParen; v 98%N; KOp OPow; v 99%N; KOp ORParen] /\
   unparse (EBin Mul (EBin Add a b) c) = [KOp OLParen; v 97%N; KOp OAdd; v 98%N; KOp ORParen; KOp OMul; v 99%N].
